@@ -12,7 +12,7 @@ package auth
 //@
 //@   -- C01: a session is written only after the hasher accepted the submitted
 //@   -- password against the password of the user that was loaded under that pid
-//@   ensures[C01] session_guard: each Sess.Put("uid", ?v) =>
+//@   ensures[C01,C06] session_guard: each Sess.Put("uid", ?v) =>
 //@       before Hash.Compare(?h, ?pw) -> ?ce :: ce == nil &&
 //@       before Store.Load(?p) -> (?u, ?le) :: le == nil && p == v && h == Password(u) &&
 //@       before Body.Read("login") -> (?vals, ?re) :: re == nil && pw == val(vals, "GetPassword") && p == val(vals, "GetPID")
